@@ -1,10 +1,13 @@
 """C02 — an actor processes one message at a time."""
 from . import inbox_common as IC
 from . import proc_common as PC
+from . import actor_common as AC
 from .inbox_common import TRUSTED_BASE, ASSUMPTIONS
 
 COQ_FILES = IC.COQ_FILES + ["Proc.v", "ProcExec.v", "ProcSchedExec.v", "ProcProofs.v", "PropsProc.v"]
 THEOREMS = ["C02_token_invariant", "C02_receive_mutex", "C02_handoff", "C0123_oracle_sound", "C02_receive_mutex_over_ring", "C02_receive_mutex_self", "C02_self_cas_fails", "C02_inbox_opened_at_most_once_and_never_after_stop", "C02_lifecycle_deliveries_before_the_inbox_opens", "C02_restart_runs_inside_invoke"]
+COQ_FILES = COQ_FILES + AC.COQ_FILES
+THEOREMS = THEOREMS + ['C02_at_most_one_thread_runs_the_actor', 'C02_no_two_receives_overlap']
 RULE = ("configurations (senders x numbered messages, capacity 1-2, Start racing or not, optional pill) of the real "
         "actor/inbox.go run under the deterministic scheduler: all schedules by DFS with visited-state pruning for the small "
         "ones, seeded random walks for the larger; each kept execution is replayed step by step in the Coq model and every "
@@ -19,4 +22,4 @@ class Part(IC.InboxSched):
     prop = 2
 
 
-PARTS = [Part(), IC.DeliverRestart(), PC.ProcSched()]
+PARTS = [Part(), IC.DeliverRestart(), PC.ProcSched(), AC.ActorSched()]
